@@ -95,6 +95,7 @@ func init() {
 				ruleHashDom(w, r, nt, map[string]bool{"jsonString": true, "jsonNumber": true, "jsonBool": true, "jsonNull": true, "jsonList": true, "jsonObject": true})
 			})
 			safely(r, "ruleHashInjective", func() { ruleHashInjective(w, r, nt) })
+				safely(r, "ruleHashZero", func() { ruleHashZero(w, r, nt) })
 			safely(r, "ruleArrayDispatch", func() { ruleArrayDispatch(w, r, v2, "v2", "diff", "patch") })
 			safely(r, "ruleObjRecurse", func() { ruleObjRecurse(w, r, v2, "v2") })
 			r.Floor("R-PATHFRESH", 12)
@@ -154,6 +155,7 @@ func init() {
 			safely(r, "ruleHashEq", func() { ruleHashEq(w, r, nt) })
 			safely(r, "ruleNodeCompare", func() { ruleNodeCompare(w, r, nt) })
 			safely(r, "ruleHashInjective", func() { ruleHashInjective(w, r, nt) })
+				safely(r, "ruleHashZero", func() { ruleHashZero(w, r, nt) })
 			safely(r, "ruleNoSharedScratch", func() { ruleNoSharedScratch(w, r, v2, "v2") })
 			safely(r, "ruleTolerance", func() { ruleTolerance(w, r, nt) })
 			safely(r, "ruleOptFwd", func() { ruleOptFwd(w, r, v2, "v2", "Option", equalsSide, nil) })
@@ -271,6 +273,7 @@ func init() {
 			safely(r, "ruleOptFwd", func() { ruleOptFwd(w, r, v2, "v2", "Option", diffSide, nil) })
 			safely(r, "ruleNodeCompare", func() { ruleNodeCompare(w, r, nt) })
 			safely(r, "ruleHashInjective", func() { ruleHashInjective(w, r, nt) })
+				safely(r, "ruleHashZero", func() { ruleHashZero(w, r, nt) })
 			safely(r, "ruleCongruence", func() { ruleCongruence(w, r, nt) })
 			safely(r, "ruleHashMove", func() { ruleHashMove(w, r, nt) })
 			safely(r, "ruleHashCover", func() { ruleHashCover(w, r, nt) })
@@ -478,6 +481,7 @@ func init() {
 				nt := newNodeTypes(w, v2, "v2")
 				safely(r, "ruleHashMove", func() { ruleHashMove(w, r, nt) })
 				safely(r, "ruleHashInjective", func() { ruleHashInjective(w, r, nt) })
+				safely(r, "ruleHashZero", func() { ruleHashZero(w, r, nt) })
 				safely(r, "ruleNodeCompare", func() { ruleNodeCompare(w, r, nt) })
 				safely(r, "ruleEqSize", func() { ruleEqSize(w, r, nt) })
 			}
@@ -527,6 +531,7 @@ func init() {
 				safely(r, "ruleHashCover", func() { ruleHashCover(w, r, nt) })
 				safely(r, "ruleHashMove", func() { ruleHashMove(w, r, nt) })
 				safely(r, "ruleHashInjective", func() { ruleHashInjective(w, r, nt) })
+				safely(r, "ruleHashZero", func() { ruleHashZero(w, r, nt) })
 			}
 			safely(r, "ruleArrayDispatch", func() { ruleArrayDispatch(w, r, v2, "v2", "diff") })
 			safely(r, "ruleProv", func() { ruleProv(w, r, v2, "v2", map[string]string{"Before": "b", "After": "a"}) })
@@ -557,6 +562,7 @@ func init() {
 			safely(r, "ruleEqSize", func() { ruleEqSize(w, r, newNodeTypes(w, lib, "lib")) })
 			// v1 digests carry no type tags at all: an ordered Equals that decides by digest calls [[]] and [{}] equal while the positional diff reports the difference
 			safely(r, "ruleHashEq", func() { ruleHashEq(w, r, newNodeTypes(w, lib, "lib")) })
+			safely(r, "ruleHashZero", func() { ruleHashZero(w, r, newNodeTypes(w, lib, "lib")) })
 			// the v1 library as reached through the top-level binary with -v2=false: -p prints the patched document
 			r.Only(func(o Ob) bool { return o.Rule == "R-CLI/R" && strings.HasPrefix(o.Key, "top.") }, func(sub *Report) { safely(sub, "runCLI", func() { runCLI(w, sub, "plumbing") }) })
 			safely(r, "ruleScanErr", func() { ruleScanErr(w, r, lib, "lib") })
